@@ -6,6 +6,7 @@ From FRP Require Import Model.Frame Model.MsgObj Proofs.FrameProofs Proofs.MsgOb
   Proofs.RegistryCheck gen.GenMsg Golden.GoldenMsg.
 From FRP Require Import Model.FrameSys Proofs.FrameSysProofs Model.FrameSysLogin Proofs.FrameSysLoginProofs.
 From FRP Require Import Model.MsgRec Proofs.MsgRecProofs gen.GenMsgRec gen.GenMsgRecThms.
+From FRP Require Import Model.Datagram Model.DatagramTypes Proofs.DatagramProofs gen.GenDgram.
 Open Scope Z_scope.
 
 Definition today_registry := registry type_consts type_map.
@@ -252,6 +253,56 @@ Theorem C17_other_sessions_untouched : forall reg tl tw tv force need wsp jok jn
   (forall e, In e es -> ~ fs_touches (fst x) e) -> In x st'.
 Proof. exact fs_run_keeps_untouched. Qed.
 Print Assumptions C17_other_sessions_untouched.
+
+(** * The NAT-hole datagram codec (pkg/nathole/utils.go): a second decoder of the same frame format, reachable
+   by unauthenticated UDP datagrams.  AES-CFB is an abstract stream transform [enc]/[dec]. *)
+
+(* what EncodeMessage writes, DecodeMessageInto reads back *)
+Theorem C17_datagram_roundtrip : forall enc dec iv t body,
+  (forall iv s, dec iv (enc iv s) = s) -> length iv = 16%nat -> registered t = true -> blen body <= max_len ->
+  dg_decode registered dec (dg_encode enc iv t body) = DgOk t body (9 + blen body) (blen body).
+Proof. intros enc dec. exact (dg_roundtrip registered dec enc). Qed.
+Print Assumptions C17_datagram_roundtrip.
+
+(* total by construction; for EVERY datagram the buffer requested stays within the declared bound, ... *)
+Theorem C17_datagram_alloc_bounded : forall dec data, 0 <= dg_alloc (dg_decode registered dec data) <= 10240.
+Proof. exact (dg_alloc_bounded registered). Qed.
+Print Assumptions C17_datagram_alloc_bounded.
+
+(* ... nothing is read past the end of the datagram (iv + bytes consumed <= its length), ... *)
+Theorem C17_datagram_no_read_past_end : forall dec data,
+  (forall iv s, length (dec iv s) = length s) ->
+  0 <= dg_consumed (dg_decode registered dec data) /\
+  dg_iv_len * (if blen data <? dg_iv_len then 0 else 1) + dg_consumed (dg_decode registered dec data) <= blen data.
+Proof. exact (dg_no_read_past_datagram registered). Qed.
+Print Assumptions C17_datagram_no_read_past_end.
+
+(* ... a datagram shorter than the iv is refused before anything is sliced, ... *)
+Theorem C17_datagram_short_rejected : forall dec data,
+  blen data < dg_iv_len -> dg_decode registered dec data = DgErr DgShort 0 0.
+Proof. exact (dg_short_rejected registered). Qed.
+Print Assumptions C17_datagram_short_rejected.
+
+(* ... and what is accepted decrypts to the encoder's image of a REGISTERED type within the bound *)
+Theorem C17_datagram_accepts_only_frames : forall dec data t body c a,
+  dg_decode registered dec data = DgOk t body c a ->
+  dg_iv_len <= blen data /\
+  exists rest, dec (firstn 16 data) (skipn 16 data) = encode_frame t body ++ rest /\
+               registered t = true /\ blen body <= max_len /\ c = 9 + blen body /\ a = blen body.
+Proof. exact (dg_accepts_only_frames registered). Qed.
+Print Assumptions C17_datagram_accepts_only_frames.
+
+(* Reflective, over today's pkg/nathole/utils.go (gen/GenDgram.v): DecodeMessageInto IS "crypto.Decode; on error
+   return it; msg.ReadMsgInto(bytes.NewReader(plaintext), m)" and EncodeMessage its mirror (locals renamed,
+   anything else is a difference), and EVERY slice / index expression in the two functions has constant bounds
+   dominated by a len() check that covers them (today there is none to guard) *)
+Theorem C17_datagram_source_guarded :
+  dg_shape_eqb dg_decode_shape dg_decode_shape_expected = true /\
+  dg_shape_eqb dg_encode_shape dg_encode_shape_expected = true /\
+  (forall fn base lo hi guards, In (fn, base, lo, hi, guards) dg_slices ->
+     0 <= lo /\ exists k, In k guards /\ lo <= k /\ (hi = -2 \/ (lo <= hi /\ hi <= k))).
+Proof. exact (dg_source_ok_sound dg_decode_shape dg_encode_shape dg_slices (eq_refl true <: dg_source_ok dg_decode_shape dg_encode_shape dg_slices = true)). Qed.
+Print Assumptions C17_datagram_source_guarded.
 
 (** * Message level: one round-trip theorem per registered message type
    (records, conversions, type bytes and encode_T / decode_T are regenerated from pkg/msg/msg.go on
